@@ -186,6 +186,17 @@ check('C06', 'translation_validation',
       'translation validation: rendered text executed on sqlite3, judged by the TLA+ reference semantics in TLC',
       'DESIGN.md 2.6, 5/C06')
 
+check('C18', 'model_checking',
+      'Heap.tla models object graphs, deep copy vs a hand-written fixed-field-list copy, and single-attribute '
+      'mutation scripts; TLC proves disjointness / original-untouched / copy-equal for the deep copy and exhibits '
+      'sharing and dropping for fields outside the list. On real trees (three dialects) and plans: reachable mutable '
+      'object sets of original and copy()/deepcopy must be disjoint, every single-attribute mutation of the copy must '
+      'leave the original projection and text unchanged, equality of trees / steps / plans / Result must be lawful and '
+      'hash(Result) total; the observations are judged by TLC (HeapTrace).',
+      'Corpus trees and plans are sampled; mutations are the kinds the spec names, one at a time.',
+      'TLA+ heap/copy model checked by TLC + TLC-judged observations of real copies and mutations',
+      'DESIGN.md 2.9, 5/C18')
+
 ALL = ['C%02d' % i for i in range(1, 21)]
 
 
